@@ -143,6 +143,7 @@ namespace {
     struct Isolated {
         std::vector<uint64_t> values;   // results delivered before the child ended
         bool clean = false;             // child exited normally after delivering everything
+        bool infra = false;             // pipe/fork trouble or a child death without a sanitizer/assert report: no verdict
         std::string diag;               // first interesting line of the child's stderr
     };
     template <typename F>
@@ -150,11 +151,14 @@ namespace {
     {
         Isolated res;
         int pv[2], pe[2];
-        if ( pipe( pv ) != 0 )
+        if ( pipe( pv ) != 0 ) {
+            res.infra = true;
             return res;
+        }
         if ( pipe( pe ) != 0 ) {
             close( pv[0] );
             close( pv[1] );
+            res.infra = true;
             return res;
         }
         fflush( stdout );
@@ -177,6 +181,7 @@ namespace {
             close( pv[0] );
             close( pe[0] );
             res.diag = "fork failed";
+            res.infra = true;
             return res;
         }
         uint64_t v;
@@ -219,10 +224,13 @@ namespace {
                 size_t e = err.find( '\n', p );
                 res.diag = err.substr( b, e == std::string::npos ? std::string::npos : e - b );
             }
-            else if ( WIFSIGNALED( status ))
-                res.diag = "child killed by signal " + std::to_string( WTERMSIG( status ));
-            else
-                res.diag = "child exit status " + std::to_string( WIFEXITED( status ) ? WEXITSTATUS( status ) : -1 );
+            else {
+                res.infra = true;
+                if ( WIFSIGNALED( status ))
+                    res.diag = "child killed by signal " + std::to_string( WTERMSIG( status ));
+                else
+                    res.diag = "child exit status " + std::to_string( WIFEXITED( status ) ? WEXITSTATUS( status ) : -1 );
+            }
         }
         return res;
     }
@@ -478,6 +486,11 @@ namespace {
             for ( size_t i = 0; i < wide.size() && !failed(); ++i ) {
                 WideItem const& w = wide[i];
                 if ( i >= r.values.size()) {
+                    if ( r.infra ) {
+                        // no verdict without a sanitizer / assertion report from the child
+                        note_class( "isolation_inconclusive" );
+                        break;
+                    }
                     if ( w.code == OP_PARENT_WIDE )
                         fail( "parent_bucket(" + hex( w.x ) + ") did not return (expected " + hex( w.x ^ ( uint64_t( 1 ) << msb_pos( w.x ))) + "): " + r.diag );
                     else
